@@ -148,6 +148,7 @@ def check(ctx):
     ctx.check(bool(rebinding) and not inplace, "T4-clear", cl, "Registrar.Clear: cls.Names = {} (rebinding), no in-place clear",
               "clearing in place while a house's namespace is current wipes that house's registry: its live instances are "
               "forgotten, later duplicates are accepted and automatic names collide")
+    clear_only_on_roots(ctx)
     # run-time creation paths bind the house's registries themselves (shared with C12)
     ctx.rule("T6-runtime", "Framer.clone (also reached at run time through `rear`) calls assignRegistries() before it tests or registers a name")
     frc = ctx.fn("framing", "Framer.clone")
@@ -158,3 +159,27 @@ def check(ctx):
               "Framer.clone: assignRegistries() precedes Framer(...)",
               "a clone reared while another house's namespace is current is checked against, and registered in, that other "
               "house's names: missing from its own registry, a foreign instance (or a spurious `already exists`) in the other")
+
+
+def clear_only_on_roots(ctx):
+    """Registrar.Clear binds Names/Counter on the class it is called on.  Called on a class that shares its root's registry (Framer,
+    Logger, Server .. share Tasker's) it gives that class a registry of its own, which shadows the root's for good and which
+    House.assignRegistries never switches: names are then unique per process, not per house, and not across the kinds that share"""
+    ctx.rule("T4-clearroot", "every <Class>.Clear() in the package is called on a class that declares its own Names and Counter")
+    reg = ctx.cls("registering", "Registrar")
+    k = 0
+    for m in ctx.repo.modules.values():
+        if m.is_test:
+            continue
+        for x in ast.walk(m.tree):
+            if isinstance(x, ast.Call) and isinstance(x.func, ast.Attribute) and x.func.attr == "Clear" and not x.args:
+                c = ctx.repo.resolve_class_expr(m, x.func.value)
+                if c is None or reg not in c.mro()[0]:
+                    continue
+                k += 1
+                ctx.use(m.tree)
+                ctx.check("Names" in c.class_attrs and "Counter" in c.class_attrs, "T4-clearroot", x, "%s is a namespace root" % src(x),
+                          "%s has no Names/Counter of its own: Clear() creates them on it, cutting it off from the registry it shares "
+                          "with %s - a Framer and a Tasker of the same name are then both accepted in one house" %
+                          (c.name, next((b.name for b in c.mro()[0][1:] if "Names" in b.class_attrs), "its root")))
+    ctx.floor("T4-clearroot:calls", k, 1)
